@@ -370,7 +370,68 @@ def main():
     val = loops_of(os.path.join(src, "parser.py"), "PVLParser", "parse_value")
     def one(l):
         return l[0] if l else ([], [])
+    def func_of(path, cls, fn):
+        tree = ast.parse(open(path).read())
+        for c in ast.walk(tree):
+            if isinstance(c, ast.ClassDef) and c.name == cls:
+                for f in c.body:
+                    if isinstance(f, ast.FunctionDef) and f.name == fn:
+                        return f
+        return None
+
+    def test_name(t):
+        """`x is None` -> "None"; `isinstance(x, T)` -> the class names, "|"-joined"""
+        if isinstance(t, ast.Compare) and len(t.ops) == 1 and isinstance(t.ops[0], ast.Is):
+            return "None"
+        if isinstance(t, ast.Call) and getattr(t.func, "id", "") == "isinstance" and len(t.args) == 2:
+            a = t.args[1]
+            els = a.elts if isinstance(a, ast.Tuple) else [a]
+            return "|".join(e.attr if isinstance(e, ast.Attribute) else getattr(e, "id", "?") for e in els)
+        return "?"
+
+    def ifchain_of(path, cls, fn):
+        """the tests of the top-level if / elif chain of cls.fn, in order"""
+        f = func_of(path, cls, fn)
+        out = []
+        node = next((n for n in (f.body if f else []) if isinstance(n, ast.If)), None)
+        while node is not None:
+            out.append(test_name(node.test))
+            node = node.orelse[0] if len(node.orelse) == 1 and isinstance(node.orelse[0], ast.If) else None
+        return out
+
+    def attrs_in_order(path, cls, fn, suffix):
+        """`self.grammar.<x>` attribute names ending in suffix, in source order"""
+        f = func_of(path, cls, fn)
+        found = []
+        for n in ast.walk(f) if f else []:
+            if isinstance(n, ast.Attribute) and n.attr.endswith(suffix):
+                found.append((n.lineno, n.col_offset, n.attr))
+        return [a for _, _, a in sorted(found)]
+
+    def regex_parts(path, cls, fn):
+        """string constants of the first re.fullmatch(...) pattern in cls.fn, in order"""
+        f = func_of(path, cls, fn)
+        for n in ast.walk(f) if f else []:
+            if isinstance(n, ast.Call) and getattr(n.func, "attr", "") == "fullmatch" and n.args:
+                pat = n.args[0]
+                out = []
+                for c in ast.walk(pat):
+                    if isinstance(c, ast.Constant) and isinstance(c.value, str):
+                        out.append((c.lineno, c.col_offset, c.value))
+                    elif isinstance(c, ast.Attribute) and not isinstance(c.value, ast.Name):
+                        out.append((c.lineno, c.col_offset, "{" + c.attr + "}"))
+                return [v for _, _, v in sorted(out)]
+        return []
+
     parts.append("/-- control structure read from the source with `ast` (see tools/extract.py) -/")
+    enc_py = os.path.join(repo, "pvl", "encoder.py")
+    dec_py = os.path.join(repo, "pvl", "decoder.py")
+    parts.append("def encodeDispatch : List String := %s" % lstrs(ifchain_of(enc_py, "PVLEncoder", "encode_simple_value")))
+    parts.append("def encodeDateDispatch : List String := %s" % lstrs(ifchain_of(enc_py, "PVLEncoder", "encode_datetype")))
+    parts.append("def datetimeFormatOrder : List String := %s"
+                 % lstrs(attrs_in_order(dec_py, "PVLDecoder", "decode_datetime", "_formats")))
+    parts.append("def odlZoneRegex : List String := %s" % lstrs(regex_parts(dec_py, "ODLDecoder", "decode_datetime")))
+    parts.append("def odlMinuteFrag : String := %s" % json.dumps(getattr(gs[0][1], "_M_frag", "?")))
     parts.append("def decodeCascade : List String := %s" % lstrs(one(dec)[0]))
     parts.append("def decodeCascadeCatches : List String := %s" % lstrs(one(dec)[1]))
     parts.append("def moduleProductions : List String := %s" % lstrs(one(mod)[0]))
